@@ -412,6 +412,83 @@ def multi_template_family():
     return out
 
 
+CYCLES = [
+    ("self", "{% set ns = namespace() %}{% set ns.me = ns %}{% set n2 = namespace() %}{% set n2.me = n2 %}"),
+    ("two", "{% set ns = namespace() %}{% set nb = namespace(o=ns) %}{% set ns.o = nb %}{% set n2 = namespace() %}{% set nc = namespace(o=n2) %}{% set n2.o = nc %}"),
+    ("list", "{% set ns = namespace(k=1) %}{% set ns.l = [1, ns] %}{% set n2 = namespace(k=1) %}{% set n2.l = [1, n2] %}"),
+    ("map", "{% set ns = namespace() %}{% set ns.d = {'k': ns, 'j': [ns]} %}{% set n2 = namespace() %}{% set n2.d = {'k': n2, 'j': [n2]} %}"),
+    ("tuple", "{% set ns = namespace() %}{% set ns.t = (ns, (ns,)) %}{% set n2 = namespace() %}{% set n2.t = (n2, (n2,)) %}"),
+    ("lazy", "{% set ns = namespace() %}{% set ns.l = [ns]|map('string') %}{% set n2 = namespace() %}{% set n2.l = [n2]|batch(1) %}"),
+    ("merge", "{% set ns = namespace() %}{% set ns.l = [ns] + [ns] %}{% set n2 = namespace() %}{% set n2.l = ([n2]|chain([n2])) %}"),
+]
+
+
+def cyclic_family(repo):
+    """values that contain themselves (through namespace attributes: directly, through a second namespace, a list,
+    a map, a tuple, a lazy iterable) fed to every filter, test, operator, to printing, serialization, comparison"""
+    filters, tests, funcs = builtin_names(repo)
+    out = []
+    for name, pre in CYCLES:
+        for v in ("ns", "[ns]", "{'a': ns}"):
+            for f in filters:
+                out.append("%s{{ %s|%s }}" % (pre, v, f))
+                if v == "ns":
+                    out.append("%s{{ [1]|%s(ns) }}{{ ns|%s(ns) }}{{ ns|%s(attribute='me') }}" % (pre, f, f, f))
+            for t in tests:
+                out.append("%s{{ %s is %s }}{{ %s is %s(n2) }}" % (pre, v, t, v, t))
+            for op in OPS:
+                out.append("%s{{ %s %s n2 }}" % (pre, v, op))
+                out.append("%s{{ %s %s 1 }}{{ 'a' %s %s }}" % (pre, v, op, op, v))
+        out += [pre + t for t in (
+            "{{ ns }}", "{{ [ns, n2] }}", "{{ ns|tojson }}", "{{ ns|tojson(2) }}", "{{ ns|string|length }}", "{{ ns == ns }}{{ ns == n2 }}{{ ns != n2 }}", "{{ ns < n2 }}{{ ns <= ns }}",
+            "{{ [ns, n2]|sort|length }}", "{{ [n2, ns, n2]|unique|list|length }}", "{{ {ns: 1, n2: 2}|length }}", "{{ {ns: 1}[ns] }}", "{{ ns in [n2] }}{{ ns in {n2: 1} }}{{ n2 not in (ns,) }}",
+            "{{ [ns, n2]|min }}", "{{ [ns, n2]|max|length }}", "{{ [[ns], [n2]]|sort|length }}", "{{ [{'a': ns}, {'a': n2}]|sort(attribute='a')|length }}", "{{ [ns, n2]|groupby('k')|length }}",
+            "{{ ns|urlencode }}", "{{ ns|pprint }}", "{{ debug() }}", "{{ debug(ns) }}", "{{ ns ~ n2 }}", "{{ '%s %r'|format(ns, n2) }}", "{{ ns|dictsort }}", "{{ dict(ns) }}", "{{ dict(a=ns)|tojson }}",
+            "{{ ns|items|list }}", "{{ ns|list }}", "{% for k in ns %}{{ k }}{{ ns[k] }}{% endfor %}", "{% for k, v in ns|items %}{{ v }}{% endfor %}", "{{ ns|e }}", "{{ ns|safe }}", "{{ ns|length }}",
+            "{% if ns %}a{% endif %}{% if ns == n2 %}b{% endif %}", "{% set q %}{{ ns }}{% endset %}{{ q|length }}", "{% filter upper %}{{ ns }}{% endfilter %}", "{{ ns|attr('me') }}", "{{ ns.me.me.me.me is defined }}",
+            "{% macro m(a) %}{{ a }}{% endmacro %}{{ m(ns) }}{{ m(a=n2) }}", "{% with z = ns %}{{ z }}{% endwith %}", "{% include 'other.txt' %}{{ ns }}", "{{ [ns]|map('string')|list }}", "{{ [ns]|map('tojson')|list }}",
+            "{{ [ns, n2]|join(', ') }}", "{{ [ns]|select|list }}", "{{ [ns, n2]|selectattr('me', 'eq', ns)|list }}", "{{ ns|default(n2) }}", "{{ namespace(a=ns) }}", "{{ cycler(ns, n2).next() }}", "{{ [ns] * 3 }}",
+            "{{ range(3)|map('string')|map('replace', '1', ns)|list }}", "{% for a in [ns, n2] %}{{ loop.changed(a) }}{{ loop.cycle(ns, n2) }}{{ loop.previtem }}{% endfor %}", "{% set ns.me = none %}{{ ns }}")]
+    return out
+
+
+WNUMS = ["0", "1", "2", "255", "256", "32767", "32768", "65535", "65536", "2147483647", "2147483648", "4294967295", "4294967296", "9223372036854775807", "9223372036854775808",
+         "18446744073709551615", "18446744073709551616", "1000000000000", "100000000000000", "99999999999999999999999999"]
+
+
+def width_family():
+    """template-controlled numbers that become an allocation size or a formatting parameter: printf-style format strings
+    with width / precision / flags at the boundaries x conversions x argument kinds, and every other place that takes a
+    width or a count"""
+    out = []
+    convs = ["d", "i", "u", "o", "x", "X", "e", "E", "f", "F", "g", "G", "c", "s", "r", "a", "%", "b", "n", ""]
+    args = ["1", "-1.5", "'ab'", "none", "340282366920938463463374607431768211455", "[1]", "true"]
+    for w in WNUMS:
+        for fl in ["", "0", "-", "+", " ", "#", "0-", "+0#", "ll", "*"]:
+            for cv in convs:
+                k = len(out)
+                out.append("{{ '%%%s%s%s'|format(%s) }}" % (fl, w, cv, args[k % len(args)]))
+                if fl in ("", "0", "-"):
+                    out.append("{{ '%%%s.%s%s'|format(%s) }}{{ '%%%s%s.%s%s|'|format(%s) }}" % (fl, w, cv, args[(k + 1) % len(args)], fl, WNUMS[k % 6], w, cv, args[(k + 2) % len(args)]))
+        for a in args:
+            out.append("{{ '%%%sd %%.%sf %%%s.%ss %%-%sx|'|format(%s, %s, %s, %s) }}" % (w, w, w, w, w, a, a, a, a))
+            out.append("{{ ('%%' ~ %s ~ 'd')|format(%s) }}{{ ('%%.' ~ %s ~ 'e')|format(%s) }}{{ '%%(k)%ss'|format(k=%s) }}{{ '%%%s$s'|format(%s) }}" % (w, a, w, a, w, a, w, a))
+            out.append("{{ '%%s'|safe|format(%s) }}{{ '%%%sd'|safe|format(%s) }}{{ '%%.%sf'|safe|format(%s) }}" % (a, w, a, w, a))
+        n = w
+        out += [t.replace("N", n) for t in (
+            "{{ ('x' * N)|length }}", "{{ ([1] * N)|length }}", "{{ ((1,) * N)|length }}", "{{ (N * 'ab')|length }}", "{{ range(N)|list|length }}", "{{ range(0, N)|length }}", "{{ range(0, N, N)|list }}",
+            "{{ range(N, 0, -1)|length }}", "{{ range(-N, N)|length }}", "{{ 'abc'|center(N)|length }}", "{{ 'abc'|center(width=N)|length }}", "{{ 'a\nb'|indent(N)|length }}", "{{ 'a\nb'|indent(width=N, first=true, blank=true)|length }}",
+            "{{ 'abc def'|truncate(N) }}", "{{ 'abc def'|truncate(length=N, leeway=N, end='') }}", "{{ 'abc def'|truncate(3, true, '', N) }}", "{{ 'abc def ghi'|wordwrap(N) }}", "{{ 'abc def ghi'|wordwrap(width=N) }}",
+            "{{ [1,2,3]|batch(N)|list|length }}", "{{ [1,2,3]|batch(N, 0)|list|length }}", "{{ [1,2,3]|slice(N)|list|length }}", "{{ [1,2,3]|slice(N, 0)|list|length }}", "{{ 1.5|round(N) }}", "{{ 1.5|round(precision=N) }}",
+            "{{ 12345.678|round(N, 'floor') }}{{ 1|round(N, 'ceil') }}", "{{ x|tojson(N)|length }}", "{{ x|tojson(indent=N)|length }}", "{{ lipsum(N)|length }}", "{{ lipsum(n=1, min=N, max=N)|length }}", "{{ lipsum(1, false, N, N)|length }}",
+            "{{ x|pprint(N) }}", "{{ 'abc'[N:] }}{{ 'abc'[:N] }}{{ 'abc'[::N] }}{{ 'abc'[N] }}", "{{ 'a,b,c'|split(',', N) }}", "{{ 'abab'|replace('a', 'b', N) }}", "{{ N|filesizeformat }}{{ N|filesizeformat(true) }}",
+            "{{ 'abc'|wordcount }}{{ N|string|length }}{{ N|abs }}{{ N|int }}{{ N|float }}", "{{ [1,2,3]|random }}{{ randrange(N) }}{{ randrange(0, N) }}", "{{ joiner(N)() }}{{ cycler(N).next() }}",
+            "{{ 'abc'|urlize(N) }}", "{{ [1,2,3]|first(N) }}{{ [1,2,3]|last(N) }}", "{{ [1,2,3]|sum(start=N) }}{{ [N, N]|sum }}", "{% for i in range(N) %}{% break %}{% endfor %}", "{{ 2 ** N }}{{ 1 ** N }}{{ 0 ** N }}{{ (-1) ** N }}",
+            "{{ 1|pluralize(N) }}{{ N|pluralize }}", "{{ '%s'|format(N) }}{{ '%d'|format(N) }}{{ '%x'|format(N) }}{{ '%e'|format(N) }}{{ '%c'|format(N) }}", "{{ 'a'|datetimeformat(N) }}{{ N|datetimeformat }}{{ N|dateformat }}{{ N|timeformat }}",
+            "{% for i in [1,2,3] %}{{ loop.cycle(N) }}{% endfor %}{{ [1,2,3]|map('center', N)|map('length')|list }}")]
+    return out
+
+
 def mutated_fixtures(repo, rng, n):
     srcs = []
     for f in sorted(glob.glob(os.path.join(repo, "minijinja/tests/inputs/*.txt")) + glob.glob(os.path.join(repo, "minijinja/tests/parser-inputs/*.txt"))
@@ -646,7 +723,7 @@ def main():
                   ("pipelines", pipeline_templates(REPO, chk.rng, 1200000 if chk.thorough else 12000)),
                   ("mutated", mutated_fixtures(REPO, chk.rng, 400000 if chk.thorough else 4000)),
                   ("slices", slice_family(chk.thorough)), ("lexer", lexer_family(chk.thorough)), ("arith", arith_family()), ("oddvalues", odd_values_family(REPO)),
-                  ("multi", multi_template_family())]
+                  ("multi", multi_template_family()), ("cyclic", cyclic_family(REPO)), ("widths", width_family())]
         line_groups = [("linesyntax", line_syntax_family())]
         labels = {t: l for l, t in nest}
     hist = collections.Counter()
@@ -737,7 +814,7 @@ def main():
         else:
             remaining.append((gname, t, prof, kind, detail))
     chk.cov["explanation"] = ("Partial verification. Proved in Coq (see theorems): parser call nesting is bounded (call graph of %d functions / %d call edges, %d guarded, regenerated from parser.rs and checked by the verified checker: max rank %d, limit %d); every one of the %d parser loops that nest what they parsed one level deeper per iteration is charged against the nesting limit %d (loop table regenerated from parser.rs), and on the model of that accounting the height of every accepted expression is at most the limit; range length arithmetic stays inside i128 and yields isize elements; slices never panic; accepted instruction streams never underflow. "
-                              "Observed (exploration): %d child-process renders (boundary sweep of every built-in filter/test/function/operator x argument pools incl. 2^62..2^128-1 counts, nesting generators: %d chain shapes and %d recursion shapes at depths 10..20000 around both limits plus products of the two, seeded random filter pipelines, mutated fixtures; boundary families of the other properties' input spaces: slices and subscripts of every container kind x start/stop/step around the length and at +-2^63, whitespace control of every tag kind x every Unicode White_Space / multi-byte / NUL / BOM text around it x whitespace settings, line statements and custom delimiters, arithmetic at the 2^53 / 2^63 / 2^64 / 2^127 / 2^128 / inf / nan boundaries, odd values through every filter and test, deep and cyclic extends / include / import chains, fuel and recursion limits at their boundaries), debug+release, 2 MiB threads, every error formatted in all forms; crashes seen: %d (known: %d). Stack meter (debug, bytes): %s."
+                              "Observed (exploration): %d child-process renders (boundary sweep of every built-in filter/test/function/operator x argument pools incl. 2^62..2^128-1 counts, nesting generators: %d chain shapes and %d recursion shapes at depths 10..20000 around both limits plus products of the two, seeded random filter pipelines, mutated fixtures; boundary families of the other properties' input spaces: slices and subscripts of every container kind x start/stop/step around the length and at +-2^63, whitespace control of every tag kind x every Unicode White_Space / multi-byte / NUL / BOM text around it x whitespace settings, line statements and custom delimiters, arithmetic at the 2^53 / 2^63 / 2^64 / 2^127 / 2^128 / inf / nan boundaries, odd values through every filter and test, deep and cyclic extends / include / import chains, fuel and recursion limits at their boundaries, values that contain themselves through namespace attributes (directly, through a second namespace, list, map, tuple, lazy iterable) x every filter / test / operator / printing / serialization / comparison, printf-style format strings with width / precision / flags at the 2^15 / 2^16 / 2^31 / 2^32 / 2^63 / 2^64 / 10^14 boundaries x conversions x argument kinds and every other width- or count-taking filter, function and operator with the same numbers), debug+release, 2 MiB threads, every error formatted in all forms; crashes seen: %d (known: %d). Stack meter (debug, bytes): %s."
                               % (info["functions"], info["edges"], info["guarded_edges"], info["max_rank"], info["max_recursion"], len(info.get("loops", [])), info.get("max_nesting", 0),
                                  total, len(CHAINS), len(NESTS), len(crashes), len(crashes) - len(remaining),
                                  ", ".join("%s %d" % (k, v["bytes"]) for k, v in sorted(meter.get("debug", {}).items()) if "bytes" in v) + "; tallest accepted AST of the generators: %s nodes (bound %s)" % (meter.get("ast_height", {}).get("max"), meter.get("ast_height", {}).get("bound"))))
